@@ -208,21 +208,70 @@ fn flex_of(kid: &Value) -> Option<f64> {
     kid["flex"].as_i64().map(|k| k as f64 / 4.0)
 }
 
+/// how the factor of one flex child enters the case
+#[derive(Clone, Copy, PartialEq, Debug)]
+enum Factor {
+    /// no factor, or one that is not a finite positive number: a non-flex child, by the rule of the repaired crate
+    Filtered,
+    /// a multiple of 1/4 with a small numerator: binary64 is exact, the model is compared
+    Quarter(u64),
+    /// any other finite positive double: predicate only
+    Inexact,
+}
+
+fn factor_of(kid: &Value) -> Factor {
+    match flex_of(kid) {
+        Some(f) if f.is_finite() && f > 0.0 => {
+            let q = f * 4.0;
+            if q.fract() == 0.0 && q >= 1.0 && q <= 4096.0 {
+                Factor::Quarter(q as u64)
+            } else {
+                Factor::Inexact
+            }
+        }
+        _ => Factor::Filtered,
+    }
+}
+
+/// (some flex node has a child with an explicit double that is compared exactly or filtered,
+///  some flex node has an inexact factor, some child carries a non-finite / non-positive double)
+fn factor_census(v: &Value, out: &mut (bool, bool, bool)) {
+    match v {
+        Value::Object(m) => {
+            if m.get("t").and_then(|t| t.as_str()) == Some("flex") {
+                for k in m.get("kids").and_then(|k| k.as_array()).cloned().unwrap_or_default() {
+                    let explicit = !k["flexf"].is_null();
+                    match factor_of(&k) {
+                        Factor::Quarter(_) if explicit => out.0 = true,
+                        Factor::Inexact => out.1 = true,
+                        Factor::Filtered if explicit => out.2 = true,
+                        _ => {}
+                    }
+                }
+            }
+            m.values().for_each(|x| factor_census(x, out));
+        }
+        Value::Array(a) => a.iter().for_each(|x| factor_census(x, out)),
+        _ => {}
+    }
+}
+
+fn has_scroll_den0(v: &Value) -> bool {
+    match v {
+        Value::Object(m) => (m.get("t").and_then(|t| t.as_str()) == Some("scroll") && m.get("den").and_then(|d| d.as_u64()) == Some(0)) || m.values().any(has_scroll_den0),
+        Value::Array(a) => a.iter().any(has_scroll_den0),
+        _ => false,
+    }
+}
+
 fn has_flex(v: &Value) -> bool {
     match v {
-        Value::Object(m) => m.iter().any(|(k, x)| (k == "flex" && x.as_i64().map(|q| q > 0).unwrap_or(false)) || has_flex(x)),
+        Value::Object(m) => m.iter().any(|(k, x)| (k == "flex" && x.as_i64().map(|q| q > 0).unwrap_or(false)) || (k == "flexf" && !x.is_null()) || has_flex(x)),
         Value::Array(a) => a.iter().any(has_flex),
         _ => false,
     }
 }
 
-fn has_inexact(v: &Value) -> bool {
-    match v {
-        Value::Object(m) => m.iter().any(|(k, x)| (k == "flexf" && (x.is_number() || x.is_string())) || has_inexact(x)),
-        Value::Array(a) => a.iter().any(has_inexact),
-        _ => false,
-    }
-}
 
 struct Env {
     defs: Arc<Defs>,
@@ -450,17 +499,12 @@ fn node_coq(node: &Value, env: &Env, genuine: bool) -> String {
         "str" => format!("(VStr {})", clist(vusizes(&node["s"]).iter().map(|c| c.to_string()))),
         "flex" => {
             let kids = clist(node["kids"].as_array().cloned().unwrap_or_default().iter().map(|k| {
-                let fl = if !k["flexf"].is_null() {
-                    // an arbitrary double: a flex child iff finite and positive (the case is judged by the predicate alone)
-                    match flex_of(k) {
-                        Some(f) if f.is_finite() && f > 0.0 => "(Some 1%positive)".to_string(),
-                        _ => "None".to_string(),
-                    }
-                } else {
-                    match k["flex"].as_i64() {
-                        Some(q) if q > 0 => format!("(Some {}%positive)", q),
-                        _ => "None".to_string(),
-                    }
+                // numerators over the common denominator 4; an inexact factor makes the whole case predicate-only,
+                // what is printed for it only has to be a flex child
+                let fl = match factor_of(k) {
+                    Factor::Quarter(q) => format!("(Some {}%positive)", q),
+                    Factor::Inexact => "(Some 1%positive)".to_string(),
+                    Factor::Filtered => "None".to_string(),
                 };
                 let face = if k["face"].is_object() { format!("(Some {})", face_coq(&face_from(&k["face"]))) } else { "None".to_string() };
                 format!("({}, {}, {}, {})", node_coq(&k["v"], env, genuine), fl, face, align_coq(&k["align"]))
@@ -681,6 +725,29 @@ fn ltree_coq(node: &Value) -> String {
     )
 }
 
+/// some node of a hand-made layout tree has two children whose rectangles share a cell / has a huge extent
+fn fp_census(node: &Value, out: &mut (bool, bool)) {
+    let kids = node["kids"].as_array().cloned().unwrap_or_default();
+    let rect = |k: &Value| -> (u64, u64, u64, u64) {
+        let p = vusizes(&k["pos"]);
+        let z = vusizes(&k["size"]);
+        (p[0] as u64, (p[0] as u64).saturating_add(z[0] as u64), p[1] as u64, (p[1] as u64).saturating_add(z[1] as u64))
+    };
+    for (i, a) in kids.iter().enumerate() {
+        let ra = rect(a);
+        if ra.1 == u64::MAX || ra.3 == u64::MAX {
+            out.1 = true;
+        }
+        for b in kids.iter().skip(i + 1) {
+            let rb = rect(b);
+            if ra.0.max(rb.0) < ra.1.min(rb.1) && ra.2.max(rb.2) < ra.3.min(rb.3) {
+                out.0 = true;
+            }
+        }
+        fp_census(a, out);
+    }
+}
+
 fn run_fp(input: &Value) -> Case {
     let t = &input["tree"];
     let out = catch(std::panic::AssertUnwindSafe(|| {
@@ -709,7 +776,10 @@ fn run_fp(input: &Value) -> Case {
             format!("CF {} []", ltree_coq(t))
         }
     };
-    Case { coq, json: j, tags: vec!["kind=find_path".to_string()], nontrivial: out.is_some() }
+    let mut census = (false, false);
+    fp_census(t, &mut census);
+    let tags = vec!["kind=find_path".to_string(), format!("fp_siblings_overlap={}", census.0), format!("fp_saturating_extent={}", census.1)];
+    Case { coq, json: j, tags, nontrivial: out.is_some() }
 }
 
 fn gen_fp_node(rng: &mut Rng, depth: usize) -> Value {
@@ -742,10 +812,14 @@ pub fn run(input: &Value) -> Case {
         chars.extend(vusizes(&g["fb"]).iter().map(|c| *c as u32));
     }
     let ct = vusizes(&input["ct"]);
+    let mut census = (false, false, false);
+    factor_census(&input["tree"], &mut census);
+    let huge_ct = ct[2] >= 1 << 40 || ct[3] >= 1 << 40;
+    let exact = !census.1 && !(has_flex(&input["tree"]) && huge_ct);
     let head = format!(
         "CV {} {} {} {} {} {} {} {} (mkCt {} {} {} {}) {}",
-        // f64 shares are exact only while remain * factor stays below 2^53
-        cbool(!has_inexact(&input["tree"]) && !(has_flex(&input["tree"]) && (ct[2] >= 1 << 40 || ct[3] >= 1 << 40))),
+        // f64 shares are exact for quarter factors while remain * factor stays below 2^53; decided per flex node
+        cbool(exact),
         cnat(hh),
         cnat(ww),
         vops_coq(&vops),
@@ -791,6 +865,13 @@ pub fn run(input: &Value) -> Case {
         format!("nodes={}", if nodes == 0 { "panic" } else if nodes < 3 { "1-2" } else if nodes < 8 { "3-7" } else { "8+" }),
         format!("tiny_ct={}", ct[2] <= 1 || ct[3] <= 1),
         format!("root={}", input["tree"]["t"].as_str().unwrap_or("?")),
+        format!("model_compared={}", exact),
+        format!("factor_double_compared={}", census.0 && exact),
+        format!("factor_inexact={}", census.1),
+        format!("factor_filtered_double={}", census.2),
+        format!("huge_ct={}", huge_ct),
+        format!("scroll_den0={}", has_scroll_den0(&input["tree"])),
+        format!("ppc={}", if defs.ctx.pixels_per_cell() == Size::new(20, 10) { "default" } else { "varied" }),
     ];
     Case { coq: format!("{} {}", head, res), json: j, tags, nontrivial }
 }
@@ -924,6 +1005,7 @@ fn gen_node(rng: &mut Rng, g: &mut Gen, depth: usize) -> Value {
                 4 | 5 => 3,
                 _ => 4,
             } as usize;
+            let exact_node = rng.chance(1, 2);
             let kids: Vec<Value> = (0..n)
                 .map(|_| {
                     let flex: Value = match rng.below(8) {
@@ -933,8 +1015,12 @@ fn gen_node(rng: &mut Rng, g: &mut Gen, depth: usize) -> Value {
                     };
                     let mut kid = json!({"v": gen_node(rng, g, depth - 1), "flex": flex, "face": if rng.chance(1, 4) { gen_small_face(rng) } else { Value::Null }, "align": gen_align(rng)});
                     if g.inexact && rng.chance(1, 2) {
-                        kid["flexf"] = if rng.chance(1, 6) {
+                        // doubles given as such: in half of the flex nodes only factors binary64 handles exactly
+                        // (quarters) and factors the crate must filter, so that the model is compared there too
+                        kid["flexf"] = if rng.chance(1, 5) {
                             json!(*rng.pick(&["inf", "-inf", "nan"]))
+                        } else if exact_node {
+                            json!(*rng.pick(&[1.0f64, 2.5, 7.0, 0.25, 0.5, 1.75, 12.0, 3.0, -1e-20, 0.0, -2.0]))
                         } else {
                             json!(*rng.pick(&[1.0f64, 1e-20, 1e300, 0.1, 0.2, 0.3, 3.3, 1e-300, 5e-324, 2.2250738585072014e-308, 1.7976931348623157e308, 2.5, -1e-20, 0.0, 7.0]))
                         };
